@@ -6,9 +6,7 @@ surfaces as a broken pool and is reported as a *harness error* (exit code 2), ne
 a pass and never as a violation.
 """
 
-import concurrent.futures as cf
 import faulthandler
-import multiprocessing
 import os
 import sys
 import time
@@ -37,56 +35,6 @@ def _init(quiet):
         quiet_stdio()
 
 
-def _call(func, arg, limit_s):
-    """Run one job in a process of its own, forked from the pool worker (which never
-    runs a job itself and so stays as the parent left it): whatever a job leaves behind
-    in the interpreter - module globals, class attributes, default arguments, caches -
-    cannot reach another job, so a job's result does not depend on which jobs the pool
-    happened to give the same worker before.  Histories inside one interpreter are part
-    of a job's own plan instead."""
-    import pickle
-    import traceback
-
-    if os.environ.get("HSIM_NO_TASK_FORK"):
-        faulthandler.dump_traceback_later(limit_s, exit=True)
-        try:
-            return func(arg)
-        finally:
-            faulthandler.cancel_dump_traceback_later()
-    r, w = os.pipe()
-    sys.stdout.flush()
-    sys.stderr.flush()
-    pid = os.fork()
-    if pid == 0:
-        code = 1
-        try:
-            os.close(r)
-            faulthandler.dump_traceback_later(limit_s, exit=True)
-            try:
-                res = ("ok", func(arg))
-            except BaseException as e:  # noqa: BLE001
-                res = ("err", type(e).__name__, str(e), traceback.format_exc())
-            data = pickle.dumps(res)
-            with os.fdopen(w, "wb") as f:
-                f.write(data)
-            code = 0
-        finally:
-            os._exit(code)
-    os.close(w)
-    with os.fdopen(r, "rb") as f:
-        data = f.read()
-    _, status = os.waitpid(pid, 0)
-    if not data:
-        raise HarnessError(f"a simulation process died (wait status {status}; "
-                           f"watchdog {limit_s}s?)")
-    res = pickle.loads(data)
-    if res[0] == "err":
-        if res[1] == "HarnessError":
-            raise HarnessError(res[2])
-        raise RuntimeError(f"{res[1]}: {res[2]}\n{res[3]}")
-    return res[1]
-
-
 def nproc_default():
     n = os.environ.get("VERIF_NPROC")
     if n:
@@ -95,29 +43,93 @@ def nproc_default():
 
 
 def map_chunks(func, args, nproc=None, limit_s=600, quiet=True, progress=None):
-    """Apply module-level `func` to each element of `args` on a fork pool; results in
-    order.  Raises HarnessError if a worker dies or exceeds `limit_s`."""
+    """Apply module-level `func` to each element of `args`, every job in a process of its
+    own forked from this (single-threaded) process; results in order.  Raises HarnessError
+    if a job's process dies or exceeds `limit_s`.
+
+    Whatever a job leaves behind in its interpreter - module globals, class attributes,
+    default arguments, caches - cannot reach another job, so a job's result does not depend
+    on which jobs ran before it; histories inside one interpreter are part of a job's own
+    plan instead.  (There is no pool: a pool worker has a queue feeder thread, and forking
+    from a multi-threaded process is what CPython warns against.)"""
+    import pickle
+    import selectors
+    import signal
+    import traceback
+
     args = list(args)
     nproc = min(nproc or nproc_default(), max(1, len(args)))
     if nproc == 1 and os.environ.get("HSIM_INPROC"):
         return [func(a) for a in args]
-    ctx = multiprocessing.get_context("fork")
     out = [None] * len(args)
+    pending = list(enumerate(args))[::-1]
+    sel = selectors.DefaultSelector()
     t0 = time.time()
-    with cf.ProcessPoolExecutor(nproc, mp_context=ctx, initializer=_init,
-                                initargs=(quiet,)) as ex:
-        futs = {ex.submit(_call, func, a, limit_s): i for i, a in enumerate(args)}
-        try:
-            done = 0
-            for f in cf.as_completed(futs, timeout=limit_s * (len(args) / nproc + 2)):
-                out[futs[f]] = f.result()
+    deadline = t0 + limit_s * (len(args) / nproc + 2)
+    done = 0
+
+    def spawn(i, a):
+        r, w = os.pipe()
+        sys.stdout.flush()
+        sys.stderr.flush()
+        pid = os.fork()
+        if pid == 0:
+            code = 1
+            try:
+                os.close(r)
+                _init(quiet)
+                faulthandler.dump_traceback_later(limit_s, exit=True)
+                try:
+                    res = ("ok", func(a))
+                except BaseException as e:  # noqa: BLE001
+                    res = ("err", type(e).__name__, str(e), traceback.format_exc())
+                data = pickle.dumps(res)
+                with os.fdopen(w, "wb") as f:
+                    f.write(data)
+                code = 0
+            finally:
+                os._exit(code)
+        os.close(w)
+        sel.register(r, selectors.EVENT_READ, [i, pid, bytearray()])
+
+    def kill_all():
+        for key in list(sel.get_map().values()):
+            try:
+                os.kill(key.data[1], signal.SIGKILL)
+                os.waitpid(key.data[1], 0)
+            except OSError:
+                pass
+            sel.unregister(key.fd)
+            os.close(key.fd)
+
+    try:
+        while pending or sel.get_map():
+            while pending and len(sel.get_map()) < nproc:
+                spawn(*pending.pop())
+            for key, _ in sel.select(timeout=5.0):
+                chunk = os.read(key.fd, 1 << 20)
+                if chunk:
+                    key.data[2].extend(chunk)
+                    continue
+                sel.unregister(key.fd)
+                os.close(key.fd)
+                i, pid, buf = key.data
+                _, status = os.waitpid(pid, 0)
+                if not buf:
+                    raise HarnessError(f"the process of job {i} died (wait status {status}; "
+                                       f"watchdog {limit_s}s?)")
+                res = pickle.loads(bytes(buf))
+                if res[0] == "err":
+                    if res[1] == "HarnessError":
+                        raise HarnessError(res[2])
+                    raise HarnessError(f"job {i} raised {res[1]}: {res[2]}\n{res[3]}")
+                out[i] = res[1]
                 done += 1
                 if progress:
                     progress(done, len(args), time.time() - t0)
-        except cf.process.BrokenProcessPool as e:
-            raise HarnessError(f"a simulation process died (watchdog {limit_s}s?): {e}")
-        except cf.TimeoutError:
-            for f in futs:
-                f.cancel()
-            raise HarnessError("batch exceeded its wall-clock limit")
+            if time.time() > deadline:
+                raise HarnessError("batch exceeded its wall-clock limit")
+    finally:
+        kill_all()
+        sel.close()
     return out
